@@ -351,6 +351,50 @@ class TFSet(T):
         return B(values_equal(a, b))
 
 
+_UPAIR = {}
+
+
+def upair_fn(t):
+    """the unordered pair {a, b} of two values of scalar type t, as a term of an uninterpreted sort with the axioms
+    UP(a, b) = UP(b, a)   and   UP(a, b) = UP(c, d) -> (a = c and b = d) or (a = d and b = c)"""
+    srt = t.sorts()[0]
+    key = str(srt)
+    if key not in _UPAIR:
+        ps = z3.DeclareSort(f"UPair_{key}")
+        up = z3.Function(f"upair_{key}", srt, srt, ps)
+        a, b, c, d = [z3.Const(f"_up{n}", srt) for n in "abcd"]
+        axioms = [z3.ForAll([a, b], up(a, b) == up(b, a)),
+                  z3.ForAll([a, b, c, d], z3.Implies(up(a, b) == up(c, d), z3.Or(z3.And(a == c, b == d), z3.And(a == d, b == c))))]
+        _UPAIR[key] = (ps, up, axioms)
+    return _UPAIR[key]
+
+
+class TUPair(T):
+    """frozenset of (at most) two values used as a dictionary key: one component of an uninterpreted 'unordered pair' sort"""
+
+    def __init__(self, t):
+        self.t = t
+
+    def __repr__(self):
+        return f"TUPair[{self.t}]"
+
+    def sorts(self):
+        return [upair_fn(self.t)[0]]
+
+    def flat(self, v):
+        if z3.is_expr(v):
+            return [v]
+        items = list(v)
+        if len(items) == 1:
+            items = items * 2
+        if len(items) != 2:
+            raise Unsupported("unordered pair with more than two members")
+        return [upair_fn(self.t)[1](self.t.flat(items[0])[0], self.t.flat(items[1])[0])]
+
+    def unflat(self, terms):
+        return terms[0]
+
+
 class TVec(T):
     """numpy float vector / matrix of concrete shape"""
 
